@@ -17,6 +17,7 @@ git -C /repo worktree remove --force $WT >/dev/null 2>&1
 git -C /repo worktree add -q --detach $WT HEAD || exit 3
 cd $WT
 export CARGO_NET_OFFLINE=true
+export CARGO_TARGET_DIR=/var/tmp/cf-target
 add_demo() {
   if [ -f $OUT/demo.diff ]; then git apply $OUT/demo.diff || echo "DEMO-APPLY-FAILED" >> $LOG; fi
   if [ -f $OUT/demo.rs ]; then cp $OUT/demo.rs tests/verif_demo_$ID.rs; fi
@@ -39,7 +40,7 @@ rm -f $OUT/.demo_mut.log
 # (1) suite with patch, demo removed
 git checkout -q -- . ; git clean -fdq tests src; git apply $OUT/patch.diff
 echo "== existing suite WITH patch" >> $LOG
-cargo nextest run -p redb@4.2.0 -p redb-derive -p redb-derive-rename-test --no-fail-fast --offline -j 6 2>&1 | tail -6 > $OUT/.suite.log || true
+cargo nextest run --workspace --no-fail-fast --offline -j 6 2>&1 | tail -6 > $OUT/.suite.log || true
 cat $OUT/.suite.log >> $LOG
 grep -q "448 passed\|448 tests run: 448 passed" $OUT/.suite.log && SUITE_OK=1 || SUITE_OK=0
 rm -f $OUT/.suite.log
